@@ -64,6 +64,7 @@ def run(prog: Program, rep: Report, tier: str) -> None:
         "NOT decided: the content of the IR code selected (C15 decides the builder's structure, not the data)."
     )
     rep.assumptions += A.ASSUMPTIONS
+    rep.assumptions += ["A6 (C16 R16.1/R16.2): the state reply read by this call has the thermostat fields (at least 82 bytes); paths guarded by a shorter reply are judged by C09, not by the merge rules"]
     rep.trusted += ["C08 reply layout (role -> extraction term of the state reply)", "C15 summary of build_command/build_swing_command (arguments recorded as events)"]
     wire = load_wire()
     reply = load_reply()
@@ -124,8 +125,12 @@ def run(prog: Program, rep: Report, tier: str) -> None:
                         eff[name] = ("sym", name, ("enum", f"{DEV}:{ENUM[name]}")) if given[name] else cur
                 if is_sep:
                     eff["swing"] = off_swing
+            # A6: the merge rules speak of a state reply that has the thermostat fields (82 bytes); what a shorter reply
+            # leads to is C09's subject (it must raise or be parsed as it is, never be mistaken for success)
+            short_state = reply1 is not None and any(isinstance(g, tuple) and len(g) == 4 and g[0] == "cmp" and g[1] in ("<", "<=") and g[2] == ("len", reply1)
+                                                    and T.is_c(g[3]) and isinstance(g[3][1], int) and g[3][1] <= 82 for g in pcs)
             # ---- R16.1/R16.2 on build_command
-            for e in builds:
+            for e in ([] if short_state else builds):
                 counts["R16.2"] += 1
                 if len(e.args) != len(bparams) or e.kwargs:
                     named = dict(e.kwargs)
@@ -147,7 +152,7 @@ def run(prog: Program, rep: Report, tier: str) -> None:
                     fail("R16.2", f"build_command's current_state is {T.show(cs)[:100] if cs else None}; expected the state field of the reply just read")
             # ---- status frame
             for k, e in zip(kinds, wr):
-                if k != "breeze_status":
+                if k != "breeze_status" or short_state:
                     continue
                 counts["R16.2"] += 1
                 sp = F.split_signed(e.args[0])
